@@ -127,6 +127,8 @@ _cache = {}
 
 def classify(path):
     """Return (class, reason) for a canonical non-local callee path, or (None, None)."""
+    if not path:
+        return (None, None)  # an indirect call (function pointer): no canonical path
     if path in _cache:
         return _cache[path]
     res = (None, None)
